@@ -301,13 +301,14 @@ def run_cell(mod_name: str, cell: dict) -> dict:
                             if abs(sv - nv) > 1e-6 + 1e-6 * max(abs(sv), abs(nv)):
                                 out['divergences'].append({'kind': 'observable', 'label': k, 'sym': sv, 'native': nv,
                                                            'witness': _approx(witness)})
-            if len(out['samples']) < 2:
+            if len(out['samples']) < 2 and (h.obligations or not out['samples']):
                 out['samples'].append({
                     'cell': cell['id'], 'outcome': h.outcome, 'decisions': len(ctx.trace),
                     'witness': _approx(witness) if witness else None,
                     'obligations': [f"{ob.label}[{ob.region}]" for ob in h.obligations][:12],
                     'example_obligation': (form_text(h.obligations[-1].cond.form, ctx.names)[:300]
                                            if h.obligations else None),
+                    'path_condition': [str(a)[:160] for a in list(ctx.solver.assertions())[-6:]],
                 })
         finally:
             stats.merge(ctx.stats)
